@@ -128,10 +128,13 @@ def run(tier):
     stats = run_harness(ck, items, tier)
     os.remove(items)
     done = stats.get("items", 0)
+    wire = agent_wire(ck, tier)
+    ck.notes.append({"agent_wire": wire})
     ck.notes.append({"harness": stats})
     ck.cov["traces_validated_against_impl"] = done
     ck.cov["evaluations"] = stats.get("encoded", 0) + stats.get("decoded", 0) + stats.get("turn_items", 0) + \
-        3 * stats.get("cand_items", 0) + 2 * stats.get("prio_items", 0) + stats.get("sets_items", 0)
+        3 * stats.get("cand_items", 0) + 2 * stats.get("prio_items", 0) + stats.get("sets_items", 0) + \
+        wire["messages_checked"]
     ck.cov["distinct_nontrivial"] = done - stats.get("cand_out_of_domain", 0)
     ck.cov["exhaustive"] = False      # exploration over a model-defined boundary product, not all byte strings
     ck.cov["rule"] = ("every element of the model-defined domain (message shapes: 28 method x class types x attribute "
@@ -146,11 +149,66 @@ def run(tier):
         "long-term key); the model's layout is additionally checked against its bytes (ModelVsReference = tool error)",
         "candidate priorities are taken from the RFC 8445 range 0..2^31-1 (rank table in harness/src/bin/stunwire.rs)",
         "TURN client messages are captured by a harness fake server on loopback UDP/TCP; ICE server URI parsing is not covered",
+        "agent wire messages: the connectivity checks, nominations, keepalives and Binding responses a real IceTransport "
+        "sends in every edge of a small IceAgent model (udp + tcp sockets) are verified with the reference crate: MI under the "
+        "right short-term key, FINGERPRINT, USERNAME, PRIORITY, role attributes, XOR-MAPPED-ADDRESS",
         f"TLC finished every sub-domain: {finished}; elements emitted {emitted}, executed {done}",
     ]
     if emitted != done:
         raise vlib.ToolError(f"harness executed {done} of {emitted} emitted elements")
     ck.finish()
+
+
+def agent_wire(ck, tier):
+    """System level: every STUN message a real ICE agent puts on the wire (connectivity checks, nominations,
+    keepalives, Binding responses) in TLC-generated IceAgent scenarios is checked with the reference crate."""
+    import C06
+    vlib.build_harness(["iceagent"])
+    consts = dict(Socks='{"udp", "tcp"}', Lites="{FALSE}", UserAlpha='{"ok", "missing"}', MiAlpha='{"ok", "missing"}',
+                  FpAlpha='{"ok"}' if tier == "quick" else '{"ok", "none"}')
+    cfg = os.path.join(vlib.SPEC, f"MC_IceAgent_C16_{tier}.gen.cfg")
+    C06.write_cfg(cfg, consts, emit=True)
+    edges = os.path.join(ck.dir, f"agent_edges_{tier}.ndjson")
+    try:
+        res = vlib.tlc("MC_IceAgent", os.path.basename(cfg), tags=("EDGE",), sinks={"EDGE": edges}, timeout=600,
+                       tag=f"MC_IceAgent_C16_{tier}")
+    finally:
+        try:
+            os.remove(cfg)
+        except OSError:
+            pass
+    vlib.tlc_ok(res, "agent wire scenarios")
+    ck.add_tlc(res, "IceAgent scenarios for agent wire messages")
+    procs, outs = [], []
+    n = 8
+    for i in range(n):
+        out = os.path.join(ck.dir, f"agent_wire_{i}.ndjson")
+        outs.append(out)
+        env = dict(os.environ)
+        env["VERIF_SEED"] = str(vlib.seed())
+        procs.append(subprocess.Popen([vlib.bin_path("iceagent"), edges, out, f"{i}/{n}"], cwd=vlib.ROOT, env=env,
+                                      stdout=subprocess.DEVNULL, stderr=subprocess.PIPE, text=True))
+    for p in procs:
+        try:
+            _, err = p.communicate(timeout=1800)
+        except subprocess.TimeoutExpired:
+            for q in procs:
+                q.kill()
+            raise vlib.ToolError("iceagent (agent wire) timed out")
+        if p.returncode != 0:
+            raise vlib.ToolError(f"iceagent (agent wire) failed rc={p.returncode}: {err[-2000:]}")
+    checked = 0
+    for out in outs:
+        for r in vlib.read_ndjson(out):
+            if r.get("type") == "summary":
+                checked += r["stats"].get("wire_checked", 0)
+            elif r.get("type") == "wire":
+                ck.divergence({"sub": "agent", "rule": "AgentWire"}, {"rule": "AgentWire", "detail": r.get("detail")})
+            elif r.get("type") == "toolerror":
+                raise vlib.ToolError(f"iceagent (agent wire): {r.get('detail')}")
+        os.remove(out)
+    os.remove(edges)
+    return {"scenarios": res["counts"]["EDGE"], "messages_checked": checked}
 
 
 def replay(path):
